@@ -22,8 +22,12 @@ def check(prog, run):
     run.rule("R-flatten", "one flatten order per diagram and an order axis consistent with it", 4)
     run.rule("R-markers", "stable = where(Lab == 1, X, nan), unstable = where(Lab == 0, X, nan), same selection for frequency and damping", 6)
     run.rule("R-cmif", "each CMIF curve = 10*log10(S_val[k,k,:] / S_val[0,0,:][argmax S_val[0,0,:]]) drawn over freq", 2)
+    run.rule("R-rejected", "the tables the diagrams read (result.Fn_poles, Xi_poles) carry every hard criterion of the run parameters: a rejected pole is NaN there, so no marker is drawn for it", 30)
     calls(prog, run)
     bind(prog, run)
+    from . import C09
+    run.assume("R-rejected is the dependence (taint) reading of C09 restricted to the plotted tables: necessary for 'no marker for rejected poles', not a proof that the right poles are blanked")
+    C09.classes_rules(prog, run, C09.CLASSES, {"reach": "R-rejected"}, only=("Fn_poles", "Xi_poles"))
     for name in ("stab_plot", "cluster_plot"):
         flatten(prog, run, prog.func("functions.plot." + name))
         markers(prog, run, prog.func("functions.plot." + name))
